@@ -205,10 +205,11 @@ fn main() {
             cases.push(Case { tag: "err-signer-listed-twice", list: signers_of(&p), stakes: base_stakes.clone(), via_json: true, honest: false });
         }
         {
+            // the stake store keeps stakes as i64 (a larger one panics in the store: not a value a chain can produce):
+            // every other party at 2^63-1 — from three parties on the total passes 2^64
             let mut st = base_stakes.clone();
-            let j = (self_idx + 1) % n;
-            st[j].1 = u64::MAX;
-            cases.push(Case { tag: "err-total-overflow", list: signers_of(&base), stakes: st, via_json: false, honest: false });
+            for (k, x) in st.iter_mut().enumerate() { if k != self_idx { x.1 = i64::MAX as u64; } }
+            cases.push(Case { tag: if n >= 3 { "err-total-overflow" } else { "other-set-huge-stake" }, list: signers_of(&base), stakes: st, via_json: false, honest: false });
         }
         {
             let mut st = base_stakes.clone();
@@ -230,7 +231,7 @@ fn main() {
             let sd: StakeDistribution = case.stakes.iter().cloned().collect();
             rt.block_on(stake_store.save_stakes(retrieval, sd.clone())).unwrap();
             // the neighbouring epochs hold OTHER stakes and ANOTHER initializer
-            let other_sd: StakeDistribution = case.stakes.iter().map(|(p, s)| (p.clone(), s.wrapping_add(3).max(1))).collect();
+            let other_sd: StakeDistribution = case.stakes.iter().map(|(p, s)| (p.clone(), if *s > 1_000_000 { s - 3 } else { s + 3 })).collect();
             rt.block_on(stake_store.save_stakes(epoch, other_sd.clone())).unwrap();
             rt.block_on(stake_store.save_stakes(Epoch(*retrieval - 1), other_sd)).unwrap();
             let other_init = sf[(self_idx + 1) % n].protocol_initializer.clone();
